@@ -35,9 +35,9 @@ def run(ctx):
                         "the marker rule (zero input count, zero output count, 00 00 00 EF) defines the extended format as in TxWire.tla"]
     cases = txwire.model_cases(ctx, want_tx=True)
     ctx.cov["tlc_generated_cases"] = len(cases)
-    cases = txwire.sample_cases(ctx, cases, ctx.pick(2500, 40000))
+    cases = txwire.sample_cases(ctx, cases, ctx.pick(2500, 150000))
     ctx.cov["tlc_generated_cases_replayed"] = len(cases)
-    args = ctx.pick(["-n", "120", "-crafted", "0", "-corpus", "60"], ["-n", "2500", "-crafted", "0", "-corpus", "3000", "-block"])
+    args = ctx.pick(["-n", "120", "-crafted", "0", "-corpus", "60"], ["-n", "10000", "-crafted", "0", "-corpus", "10000", "-block"])
     events, rejects = txwire.collect(ctx, args, cases)
     handle(ctx, events, rejects)
     for e in events[:2] + events[len(events) // 2:len(events) // 2 + 2]:
